@@ -84,12 +84,27 @@ def ns():
         class SERVICE_B:
             LOGGING_ = LOGGING
             X = Option.auto(default=0) >> inc
-        return {"LOGGING": LOGGING, "SERVICE_A": SERVICE_A, "SERVICE_B": SERVICE_B}
+        @Option.namespace("INNER")
+        class INNER:
+            X = Option("X", "fallback")
+
+        @Option.namespace("MID")
+        class MID:
+            INNER_ = INNER
+            M = 1
+
+        @Option.namespace
+        class TOP:
+            MID_ = MID
+        return {"LOGGING": LOGGING, "SERVICE_A": SERVICE_A, "SERVICE_B": SERVICE_B, "TOP": TOP}
 
     def NSPATHS(root):
         """(path, thunk giving the member through the namespace, fully-qualified Option) for the namespaces built by mkns()"""
         out = []
         for rootname, nsobj in root.items():
+            if rootname == "TOP":
+                out += [("TOP.MID.INNER.X", lambda n=nsobj: n.MID_.INNER_.X, Option("TOP.MID.INNER.X", "fallback")), ("TOP.MID.M", lambda n=nsobj: n.MID_.M, Option("TOP.MID.M", 1))]
+                continue
             if rootname == "LOGGING":
                 out += [("LOGGING.LEVEL", lambda n=nsobj: n.LEVEL, Option("LOGGING.LEVEL", 3)), ("LOGGING.FMT", lambda n=nsobj: n.FMT, Option("LOGGING.FMT", "plain")),
                         ("LOGGING.KEEP", lambda n=nsobj: n.KEEP, Option("LOGGING.KEEP")), ("LOGGING.PATH", lambda n=nsobj: n.PATH, Option("LOGGING.PATH", "{A}/x.csv")),
@@ -165,7 +180,7 @@ def dict_universe(rnd, n):
     out = [{}, {"A": 1}, {"A": 2, "B": 3}, {"A": 1, "X": 5, "Z": 9}, {"A": 1, "T": 0, "X": 4, "Y": 6, "Z": 7},
            {"S": {"X": 1, "Y": 2}}, {"A": "{B}", "B": 2}, {"A": "{NOPE}"}, {"A": "{ROOT}/data"}, {"A": "{ROOT}/data", "ROOT": "/r"}, {"A": 0}, {"A": None, "Z": 1}, {"A": 3, "S": {"X": 2}, "B": 1},
            {"A": 1, "S": 5}, {"XS": [1, 2], "B": 1}, {"A": 1, "AB": 2, "A_DECAY": 3}, {"S": {"X": ["{ROOT}/a.csv"]}}, {"L": [{"p": "{ROOT}"}], "A": 1}, {"S": {"X": ["{A}/a.csv"]}, "A": 1}, {"LOGGING": {"LEVEL": 0, "KEEP": 2}, "SERVICE_A": {"LOGGING": {"LEVEL": 5}}, "SERVICE_B": {"LOGGING": {"LEVEL": 0}}},
-           {"SERVICE_A": {"LOGGING": {"LEVEL": 9}}, "LOGGING": {"KEEP": 1}}, {"SERVICE_B": {"LOGGING": {"FMT": ""}}}, {"KINDS": ["x", "y"], "X": 1, "Y": 2}, {"KINDS": ["y"], "Y": 2}, {"L": [7, 8]}, {"A": 1, "DOM": [1, 2]}, {"A": 3, "DOM": [1, 2]}]
+           {"SERVICE_A": {"LOGGING": {"LEVEL": 9}}, "LOGGING": {"KEEP": 1}}, {"SERVICE_B": {"LOGGING": {"FMT": ""}}}, {"TOP": {"MID": {"INNER": {"X": 0}, "M": None}}}, {"TOP": {"MID": {"INNER": {"X": "set"}}}}, {"KINDS": ["x", "y"], "X": 1, "Y": 2}, {"KINDS": ["y"], "Y": 2}, {"L": [7, 8]}, {"A": 1, "DOM": [1, 2]}, {"A": 3, "DOM": [1, 2]}]
     for _ in range(n):
         d = {}
         for k in rnd.sample(KEYS, rnd.randint(0, 5)):
